@@ -12,7 +12,7 @@ RULE = ('sketch A . h1 . V . h2 . B: V a vanishing construct (or a chain of them
         'gap between A and B in the plain text must be GLUED / SPACE / PARAGRAPH as given by a '
         'reference that reads the source like TeX (line ends, comments, blanks after control '
         'words, blank lines).')
-BOUNDS = {'quick': '27 vanishing constructs / chains (incl. calls of user macros with multi-line bodies) x holes <= 3 characters each',
+BOUNDS = {'quick': '33 vanishing constructs / chains (incl. calls of user macros with multi-line bodies, closing braces of pass-through arguments) x holes <= 3 characters each',
           'thorough': 'holes <= 4 characters'}
 OUTSIDE = 'holes longer than the bound; more than two layout holes per document; white space ' \
           'other than blank, tab, line break'
@@ -51,6 +51,14 @@ VS = {
     'macro_body_end_nl': ('\\qfig{a}', 'brace', '\\newcommand{\\qfig}[1]{\\label{#1}\n}\n'),
     'macro_body_start_nl': ('\\qfig', 'word', '\\newcommand{\\qfig}{\n\\label{x}}\n'),
     'macro_body_pct': ('\\qfig{a}', 'brace', '\\newcommand{\\qfig}[1]{%\n  \\label{#1}%\n}\n'),
+    # the closing brace of a pass-through argument (Alpha stands inside the argument): the line
+    # of the brace becomes blank only because markup vanished
+    'close_ltadd': ('}', 'brace', '\\LTadd{'),
+    'close_textcolor': ('}', 'brace', '\\textcolor{red}{'),
+    'close_user_macro': ('}', 'brace', '\\newcommand{\\qw}[1]{#1}\n\\qw{'),
+    'close_unknown': ('}', 'brace', '\\zzfoo{'),
+    'close_group': ('}', 'brace', '{'),
+    'close_two': ('}}', 'brace', '\\LTadd{\\textcolor{red}{'),
     'def_body_lines': ('\\qfig', 'word', '\\def\\qfig{\n  \\index{x}\n  \\label{y}\n}\n'),
 }
 
